@@ -122,6 +122,21 @@ let cmd_sens toks =
     let (z, p) = compute_Zj fl (fun p x -> derivative fl { si with si_params = p } x t) si.si_params x (nat_of_int k) h sch in
     String.concat " " (List.map hx z) ^ " | " ^ String.concat " " (List.map hx p)
 
+(* ---- C07: dispatch model iface stoch delay safe vol df ---- *)
+let cmd_dispatch toks =
+  match toks with
+  | [m; i; s; d; sf; v; df] ->
+    let b x = (x = "1") in
+    let d = (match d with "none" -> TNone | "false" -> TFalse | _ -> TTrue) in
+    let v = (match v with "off" -> VOff | "true" -> VTrue | "numpos" -> VNumPos | "numnonpos" -> VNumNonPos | _ -> VObj) in
+    (match dispatch { o_model = b m; o_iface = b i; o_stoch = b s; o_delay = d; o_safe = b sf; o_vol = v; o_df = b df } with
+     | RejectOptions -> "REJECT"
+     | InternalFault w -> "FAULT " ^ string_of_int (int_of_nat w)
+     | Run (k, safe, lab) ->
+       "RUN " ^ (match k with KDet -> "det" | KSSA -> "ssa" | KVolSSA -> "volssa" | KDelaySSA -> "delayssa" | KDelayVolSSA -> "delayvolssa")
+       ^ " " ^ (if safe then "safe" else "plain") ^ " " ^ (if lab then "labelled" else "unlabelled"))
+  | _ -> raise (Parse "dispatch")
+
 let () =
   try
     while true do
@@ -136,6 +151,7 @@ let () =
           | "prior" -> cmd_prior toks
           | "sens" -> cmd_sens toks
           | "sim" -> cmd_sim toks
+          | "dispatch" -> cmd_dispatch toks
           | "iface" -> cmd_iface toks
           | _ -> "ERR unknown command " ^ cmd)
           with e -> "ERR " ^ Printexc.to_string e in
